@@ -1202,6 +1202,62 @@ def part_b(ck, S, g, exe_rel, exe_fuzz):
       conforming_verdict(d2, r1, xml, labels, 'attribute %s added to a minimal %s' % (a.name, ctx.key))
       ck.case(nontrivial=False, labels=labels)
   stats['b0_documents'] = nsweep
+
+  # ---- URDF documents (b3): generated robots (links, joints of every type with origin/axis/limit/dynamics/mimic children in
+  # every combination, inertial/visual/collision with primitive geometry).  Oracle: never crashes / escapes; accepted or
+  # rejected with a message.
+  urng = random.Random(ck.seed * 7919 + 13)
+  nurdf = 0
+  JT = ['fixed', 'revolute', 'prismatic', 'continuous', 'floating', 'planar', 'spherical', 'bogus']
+
+  def urdf_doc():
+    nl = urng.randint(1, 5)
+    out = ['<robot name="r%d">' % urng.randint(0, 9)]
+    if urng.random() < 0.3:
+      out.append('<mujoco><compiler fusestatic="%s" discardvisual="%s"/></mujoco>' % (
+          urng.choice(['true', 'false']), urng.choice(['true', 'false'])))
+    if urng.random() < 0.3:
+      out.append('<material name="mat"><color rgba="%.1f %.1f %.1f 1"/></material>' % (urng.random(), urng.random(), urng.random()))
+    for i in range(nl):
+      parts = []
+      if urng.random() < 0.7:
+        parts.append('<inertial><origin xyz="%.2f 0 %.2f" rpy="0 %.2f 0"/><mass value="%.2f"/><inertia ixx="0.01" ixy="0" ixz="0" '
+                     'iyy="0.01" iyz="0" izz="%.3f"/></inertial>' % (urng.uniform(-.2, .2), urng.uniform(-.2, .2),
+                                                                   urng.uniform(-1, 1), urng.uniform(0.1, 3), urng.uniform(0.005, 0.02)))
+      for tag in ('visual', 'collision'):
+        if urng.random() < 0.6:
+          geo = urng.choice(['<box size="0.1 0.2 0.3"/>', '<sphere radius="0.1"/>', '<cylinder radius="0.05" length="0.3"/>',
+                             '<capsule radius="0.05" length="0.2"/>'])
+          mat = '<material name="mat"/>' if tag == 'visual' and urng.random() < 0.3 else ''
+          parts.append('<%s><origin xyz="0 %.2f 0"/><geometry>%s</geometry>%s</%s>' % (tag, urng.uniform(-.2, .2), geo, mat, tag))
+      out.append('<link name="l%d">%s</link>' % (i, ''.join(parts)))
+    for i in range(1, nl):
+      jt = urng.choice(JT)
+      kids = ['<parent link="l%d"/>' % urng.randint(0, i - 1), '<child link="l%d"/>' % i]
+      if urng.random() < 0.6:
+        kids.append('<origin xyz="%.2f %.2f %.2f" rpy="%.2f 0 %.2f"/>' % tuple(urng.uniform(-1, 1) for _ in range(5)))
+      if urng.random() < 0.6:
+        kids.append('<axis xyz="%d %d %d"/>' % (urng.randint(-1, 1), urng.randint(-1, 1), urng.randint(0, 1)))
+      if urng.random() < 0.6:
+        kids.append('<limit %s/>' % ' '.join(urng.sample(['lower="-1"', 'upper="1.5"', 'effort="10"', 'velocity="2"'],
+                                                            urng.randint(0, 4))))
+      if urng.random() < 0.5:
+        kids.append('<dynamics %s/>' % ' '.join(urng.sample(['damping="0.1"', 'friction="0.05"'], urng.randint(0, 2))))
+      if urng.random() < 0.2:
+        kids.append('<mimic joint="j%d" multiplier="2" offset="0.1"/>' % urng.randint(1, nl))
+      if urng.random() < 0.15:
+        kids.append('<safety_controller k_velocity="1"/><calibration rising="0"/>')
+      urng.shuffle(kids)
+      out.append('<joint name="j%d" type="%s">%s</joint>' % (i, jt, ''.join(kids)))
+    out.append('</robot>')
+    return ''.join(out)
+  for _ in range(ck.budget(400, 6000)):
+    xml = urdf_doc()
+    r = run(xml, parse_only=(nurdf % 3 != 0), timeout=5)
+    nurdf += 1
+    bad = handle_common(S, r, xml, 'urdf-doc')
+    ck.case(nontrivial=False, labels=['b3:urdf', 'b3:urdf-crash-or-escape' if bad else ('b3:urdf-accepted' if r.parse == 1 else 'b3:urdf-rejected')])
+  stats['b3_urdf_documents'] = nurdf
   stats['t_sweeps_s'] = round(time.time() - t_b, 1)
   stats['b1_hostile_documents'] = hostile_stats['docs']
   stats['b1_hostile_crash_or_escape'] = hostile_stats['crash-or-escape']
